@@ -150,6 +150,34 @@ impl Property for C04 {
                 }
             }
         }
+        // compiler outputs at the widths of the format (253..257 arguments, members, locals; 65500..65537
+        // constants; 65533..65537 locals): the compiler or the serializer may refuse such a
+        // program, but a file that is written must follow the layout
+        let mut limit_programs = crate::gen::limits::programs();
+        limit_programs.extend(crate::gen::limits::huge_programs());
+        for (i, (name, src)) in limit_programs.into_iter().enumerate() {
+            if !ctx.shard_mine(i + 7) {
+                continue;
+            }
+            let p = match fmlrun::parse(&src).and_then(|ast| fmlrun::compile(&ast)) {
+                Ok(p) => p,
+                Err(_) => {
+                    ctx.label("limit-program:refused-by-parser-or-compiler");
+                    continue;
+                }
+            };
+            if fmlrun::serialize(&p).is_err() {
+                ctx.label("limit-program:refused-by-serializer");
+                continue;
+            }
+            ctx.eval();
+            ctx.label("limit-program:written");
+            let case = || json!({"limit_program": name, "source": src});
+            if let Err(mut v) = writer_conformance(&p, &case, ctx, "limit") {
+                v.detail = format!("[limit program {}] {}", name, v.detail);
+                out.push(v);
+            }
+        }
         for (i, f) in crate::props::c03::repo_bc_files().iter().enumerate() {
             if !ctx.shard_mine(i) {
                 continue;
@@ -182,6 +210,41 @@ impl Property for C04 {
             }
         }
         out
+    }
+    fn replay(&self, case: &Value, ctx: &mut Ctx) -> Judged {
+        if let Some(t) = case["tape"].as_str() {
+            if let Some(bytes) = crate::tape::unhex(t) {
+                return self.judge_tape(&bytes, ctx);
+            }
+        }
+        if let Some(src) = case["source"].as_str() {
+            // a fixed program (limit program): the compiler's output against the layout
+            let c = case.clone();
+            let p = match fmlrun::parse(src).and_then(|ast| fmlrun::compile(&ast)) {
+                Ok(p) => p,
+                Err(_) => return Ok(()),
+            };
+            if fmlrun::serialize(&p).is_err() {
+                return Ok(());
+            }
+            ctx.eval();
+            return writer_conformance(&p, &move || c.clone(), ctx, "limit");
+        }
+        if let Some(h) = case["bytes"].as_str() {
+            // a checked-in file: loaded by FML as what the independent reader reads
+            let bytes = crate::tape::unhex(h).unwrap_or_default();
+            ctx.eval();
+            return match (reader::read(&bytes), fmlrun::load(&bytes)) {
+                (Ok(m), Ok(p)) => match project(&p) {
+                    Ok(pr) if pr.model == m => Ok(()),
+                    Ok(pr) => Err(Violation::new("reader-layout", diff_models(&m, &pr.model), case.clone())),
+                    Err(e) => Err(Violation::new("projection-failed", e, case.clone())),
+                },
+                (Ok(_), Err(e)) => Err(Violation::new("reader-layout", format!("conforming file rejected by FML: {}", e), case.clone())),
+                _ => Ok(()),
+            };
+        }
+        Err(Violation::new("harness-error", "unusable replay case", case.clone()))
     }
     fn judge_tape(&self, tape: &[u8], ctx: &mut Ctx) -> Judged {
         let mut t = Tape::new(tape);
